@@ -15,7 +15,7 @@
 (* object is touched after it was released (NoUaf).                               *)
 (* FIXSPLIT / FIXFREE = FALSE reproduce the two defects of the code as pinned     *)
 (* (kept as negative controls that TLC must refute).                              *)
-EXTENDS Integers, Sequences, FiniteSets, TLC
+EXTENDS Integers, Sequences, FiniteSets, TLC, EnkiCuts
 CONSTANTS N,        \* scheduler threads (0 = caller)
           Cap,      \* pipe capacity
           S,        \* set size of the parallel_for task "A"
@@ -496,6 +496,10 @@ Spec == /\ Init /\ [][Next]_vars
 Termination == <>(\A self \in ProcSet: pc[self] = "Done")
 
 \* END TRANSLATION
+\* the model's own partition arithmetic is the one of EnkiCuts (which judges the ranges recorded from the real scheduler)
+ASSUME NumPartitions = NumPartitionsOf(N) /\ NumInitial = NumInitialOf(N)
+ExecAtCuts == \A self \in ProcSet : (pc[self] = "E0" /\ xk[self] = "A") => IsPartition(N, S, xa[self], xb[self])
+NoFullBranch == \A self \in ProcSet : pc[self] # "SAx"
 NoOob == ~oob
 NoUaf == ~uaf
 AtMostOnce == \A i \in 0..(S-1) : execd[i] <= 1
